@@ -2,6 +2,7 @@ import FluteModel.Recv
 import FluteModel.Lemmas.RecvBounds
 import FluteModel.Lemmas.RecvToy
 import FluteModel.Lemmas.RecvGrowth
+import FluteModel.Lemmas.RecvD16
 /-
   C17 - receiver memory is bounded by configuration, not by traffic: the SESSION-LEVEL registries
   (`Receiver`: objects_error, fdt_current, objects_completed, objects, fdt_receivers).
@@ -131,6 +132,50 @@ theorem d16_unrepaired_cleanup_keeps_unfinished (s s' : State σ) (now : Int)
     simp only []
     refine List.mem_filter.mpr ⟨updateExpiredAll_receiving now _ _ hl kf hkf hst, ?_⟩
     simp [hst]
+
+/-- **D16, unboundedness on the unrepaired tree** (negation of `cleanup_releases` there).  For EVERY
+    `n` there is a history of `n` datagrams (one packet for each of `n` FDT instance ids, none of
+    which ever completes) after which `fdt_receivers` holds `n` instances, and the unrepaired
+    `cleanup_fdt` still holds all `n` of them at any later time: memory was bounded by traffic
+    (up to 2^20 ids), not by configuration. -/
+theorem d16_unrepaired_unbounded (cfg : Config) (n : Nat) (later : Int) :
+    ∃ s out, run Toy.iface (State.init cfg) (d16Ops n) = some (s, out) ∧ s.fdtReceivers.length = n ∧
+      ∀ s', cleanupFdtUnrepaired s later = .ok s' → n ≤ s'.fdtReceivers.length := by
+  obtain ⟨s, out, hr, hcur, hlen, hall⟩ := d16_run cfg n
+  refine ⟨s, out, hr, hlen, fun s' hs' => ?_⟩
+  have hkeep := d16_unrepaired_cleanup_keeps_unfinished s s' later hs'
+  -- every entry survives, so the surviving list is at least as long
+  unfold cleanupFdtUnrepaired at hs'
+  split at hs'
+  · cases hs'
+  · rename_i l hl
+    injection hs' with hs'; subst hs'
+    simp only []
+    have hl_eq : l = s.fdtReceivers := by
+      -- no entry is Complete, so `update_expired_state` changes nothing
+      have : ∀ (l0 l1 : List (Nat × FdtRecv Toy.Obj)), updateExpiredAll later l0 = .ok l1 →
+          (∀ kf ∈ l0, kf.2.st = .receiving) → l1 = l0 := by
+        intro l0
+        induction l0 with
+        | nil => intro l1 h _; simp [updateExpiredAll] at h; exact h
+        | cons a r ih =>
+          intro l1 h hrec
+          obtain ⟨k, f⟩ := a
+          have hf : f.updateExpired later = .ok f := by
+            unfold FdtRecv.updateExpired
+            rw [if_pos (by rw [(hrec (k, f) (by simp) : f.st = .receiving)]; simp)]
+          unfold updateExpiredAll at h
+          rw [hf] at h
+          simp only [] at h
+          split at h
+          · cases h
+          · rename_i r' hr'
+            injection h with h; subst h
+            rw [ih r' hr' (fun x hx => hrec x (List.mem_cons_of_mem _ hx))]
+      exact this _ _ hl (fun kf hkf => (hall kf hkf).2)
+    subst hl_eq
+    rw [List.filter_eq_self.mpr (fun kf hkf => by simp [(hall kf hkf).2])]
+    omega
 
 /-! ### non-vacuity / witnesses on concrete histories -/
 
